@@ -544,7 +544,7 @@ theorem parseFieldsPath_ctx {body : List Str} {a : Str × List Str} (h : parseFi
       rw [parsePath_ctx hi rest]
 
 /-- a `server` clause that parses alone is local; `per` needs every connective that may follow to be
-reserved (`rx`, `tx` are not: defect D52), `for` needs them reserved and different from `in` (D53) -/
+reserved (`rx`, `tx` are not: defect D62), `for` needs them reserved and different from `in` (D63) -/
 theorem server_local (K : List Str) (c : List Str) (ha : Alone serverVerb c)
     (hper : c.head? = some (str "per") → ∀ x ∈ K, isReserved x = true)
     (hfor : c.head? = some (str "for") → PlainRes K) : LocalText serverVerb K c := by
